@@ -71,9 +71,16 @@ def chunk_rows_ok(chunk, n, row0):
     return True
 
 
+WKINDS = 6           # the five source kinds + (round 6) permuted fields that all have ONE format: rows laid out alike
+
+
 def window_check(kind, total, frm, to, to_none, start, stop, stop_none, dtA, dtB, wB):
     nps.reset()
-    (src, mapping, W) = make_source(kind, total, dtA, dtB, '<', '<', wB)
+    if kind == 5:
+        # exactly the frame's channels, other field order, both fields of one format: only the NAMES tell the rows apart
+        (src, mapping, W) = make_source(4, total, dtA, dtA, '<', '<', None)
+    else:
+        (src, mapping, W) = make_source(kind, total, dtA, dtB, '<', '<', wB)
     w = W(src, mapping, from_idx=frm, to_idx=None if to_none else to)
     eff_to = total if to_none else to
     if w.n_rows != eff_to - frm:
@@ -83,6 +90,8 @@ def window_check(kind, total, frm, to, to_none, start, stop, stop_none, dtA, dtB
     if not chunk_rows_ok(chunk, eff_stop - start, frm + start):
         return 2
     # slot order and element dtypes follow the frame's channel list, not the source
+    if kind == 5:
+        dtB, wB = dtA, None
     if chunk.dtype[('A')].name != DT_NAMES[dtA] or chunk.dtype['B'].name != DT_NAMES[dtB] or chunk.dtype.width('B') != wB:
         return 3
     if kind == 3 and H5.opened[-1] != ('data.h5', 'r'):
@@ -100,7 +109,7 @@ def ob_window(kind: int, total: int, frm: int, to: int, to_none: bool, start: in
     """
     For each source kind: n_rows is the window length and a chunk shows exactly source rows [from+start, from+stop)
     of every channel, in the frame's channel order.
-    pre: 0 <= kind < KINDS and kind % SHARD_N == SHARD_I % KINDS
+    pre: 0 <= kind < WKINDS and kind % SHARD_N == SHARD_I % WKINDS
     pre: 1 <= total <= TOTAL_MAX
     pre: 0 <= frm < to <= total
     pre: 0 <= start <= stop <= (total if to_none else to) - frm
@@ -111,7 +120,7 @@ def ob_window(kind: int, total: int, frm: int, to: int, to_none: bool, start: in
 
 def reach_window(kind: int, total: int, frm: int, to: int, to_none: bool, start: int, stop: int, stop_none: bool) -> int:
     """
-    pre: 0 <= kind < KINDS
+    pre: 0 <= kind < WKINDS
     pre: 1 <= total <= TOTAL_MAX
     pre: 0 <= frm < to <= total
     pre: 0 <= start <= stop <= (total if to_none else to) - frm
